@@ -289,4 +289,94 @@ def check_C07(cx):
     return check_pipeline(cx, "C07")
 
 
-CHECKS = {"C19": check_C19, "C03": check_C03, "C07": check_C07}
+# ---------------------------------------------------------------- Bootstrap / C13
+def boot_consts(listeners, program, maxincoming, maxchans, shutdown=True, fixlisten=None):
+    return {"Listeners": set(listeners), "Program": [list(o) for o in program], "MaxIncoming": maxincoming,
+            "MaxChans": maxchans, "WithShutdown": shutdown,
+            "FixListen": TREE.get("FixListen", False) if fixlisten is None else fixlisten}
+
+
+def boot_move(label):
+    name, args = parse_call(label)
+    if name == "Incoming":
+        return ["incoming", str(args[0])]
+    if name[0] == "M":
+        return ["step", "M"]
+    if name[0] == "S":
+        return ["step", "SD"]
+    if name[0] == "L":
+        return ["step", "L%d" % args[0]]
+    if name[0] == "R":
+        return ["step", "R%d" % args[0]]
+    raise Inconclusive("unknown Bootstrap label " + label)
+
+
+def boot_case(cid, consts, schedule=None, rand=None):
+    c = {"id": cid, "listeners": sorted(consts["Listeners"]), "program": consts["Program"],
+         "max_incoming": consts["MaxIncoming"], "shutdown": consts["WithShutdown"], "max_chans": consts["MaxChans"]}
+    if schedule is not None:
+        c["schedule"] = schedule
+    if rand is not None:
+        c["random"] = rand
+    return c
+
+
+def check_C13(cx):
+    cx.module = "boot"
+    cx.build()
+    quick = cx.tier == "quick"
+    inv = ["TypeOK", "C13_Final"]
+    L, C, X = (lambda l: ["listen", l]), ["connect"], (lambda l: ["lclose", l])
+    mcs = [
+        ("l1c1", boot_consts([1], [L(1), C], 1, 2)),
+        ("l2", boot_consts([1, 2], [L(1), L(2)], 1, 1)),
+        ("l1x", boot_consts([1], [L(1), X(1), C], 1, 2)),
+    ]
+    if not quick:
+        mcs += [("l2c1i2", boot_consts([1, 2], [L(1), C, L(2)], 2, 3)),
+                ("l1c2", boot_consts([1], [C, L(1), C], 2, 4)),
+                ("l2x", boot_consts([1, 2], [L(1), L(2), X(1)], 2, 2))]
+    for name, consts in mcs:
+        res = generic_mc(cx, "MC" + name, "Bootstrap", consts, inv, what="C13 final state after Shutdown, program %s" % name)
+        if res["violated"]:
+            sched = [boot_move("%s(%s)" % (s["action"], s["args"])) if s["args"] else boot_move(s["action"]) for s in res["trace"] if s["action"] != "Init"]
+            cases = [boot_case("%s-cex" % name, consts, schedule=sched)]
+            rs = run_driver(cx.driver, "boot", cases, cx.wd, tag="cex")
+            cx.absorb(rs, cases)
+    lres = generic_mc(cx, "MClive", "Bootstrap", boot_consts([1], [L(1), C], 1, 2), ["TypeOK"], properties=["C13_Live"], spec="FairSpec",
+                      what="after Shutdown everything comes to rest (liveness)")
+    if TREE.get("FixListen"):
+        c0 = boot_consts([1], [L(1)], 0, 1, fixlisten=False)
+        res = generic_mc(cx, "MCunfixed", "Bootstrap", c0, ["C13_Final"], what="self-test: Sync without the re-check after Listen must violate C13_Final")
+        cx.selftests["unfixed_spec_violates_C13_Final"] = bool(res["violated"])
+        if not res["violated"]:
+            raise Inconclusive("self-test failed: the unrepaired Bootstrap specification no longer violates C13_Final")
+        sched = [boot_move("%s(%s)" % (s["action"], s["args"])) if s["args"] else boot_move(s["action"]) for s in res["trace"] if s["action"] != "Init"]
+        cases = [boot_case("regress", boot_consts([1], [L(1)], 0, 1), schedule=sched)]
+        cx.absorb(run_driver(cx.driver, "boot", cases, cx.wd, tag="regress"), cases)
+    for name, consts in mcs[:2] if quick else mcs[:4]:
+        init, adj = generic_graph(cx, "G" + name, "Bootstrap", consts)
+        paths, total, planned = edge_cover(init, adj, cx.rnd, max_paths=500 if quick else None)
+        cases = [boot_case("%s-p%d" % (name, i), consts, schedule=[boot_move(l) for _, l, _ in p],
+                           rand={"seed": cx.rnd.randrange(1 << 40), "policy": "uniform"}) for i, p in enumerate(paths)]
+        rs = run_driver(cx.driver, "boot", cases, cx.wd, tag=name)
+        cx.absorb(rs, cases)
+        v = validate(cx, "T" + name, "TraceBootstrap", consts, rs, inv, {"a": "reset", "p": ""})
+        cx.edges_total += total
+        cx.edges_walked += planned if not v["rejected"] else 0
+        log("  bootstrap %s: %d edges, %d paths, %d rejected, t=%.1fs" % (name, total, len(paths), len(v["rejected"]), time.time() - cx.t0))
+    big = [("r2", boot_consts([1, 2], [L(1), C, L(2), C], 3, 5)), ("r2x", boot_consts([1, 2], [L(1), L(2), X(2), C], 2, 3)),
+           ("r3", boot_consts([1, 2, 3], [L(1), L(2), C, L(3)], 3, 4))]
+    for name, consts in big:
+        cases = [boot_case("%s-r%d" % (name, i), consts, rand={"seed": cx.rnd.randrange(1 << 40), "policy": "uniform"}) for i in range(60 if quick else 600)]
+        rs = run_driver(cx.driver, "boot", cases, cx.wd, tag=name)
+        cx.absorb(rs, cases)
+        validate(cx, "T" + name, "TraceBootstrap", consts, rs, inv, {"a": "reset", "p": ""})
+        if rs and len(cx.samples) < 3:
+            cx.samples.append({"program": consts["Program"], "schedule": rs[0]["sched"][:30], "final": rs[0]["final"]})
+    cx.assume.append("channels are created with the bootstrap context (default); channel internals are abstracted (Channel.tla is their model)")
+    return finish(cx, rule="cases = Listen/Async/Connect/Listener.Close programs with a concurrent Shutdown: TLC state-graph edge covers and seeded random "
+                            "schedules executed on the real bootstrap with a gated mock factory/acceptor/executor; distinct_nontrivial = distinct Bootstrap.tla transitions replayed")
+
+
+CHECKS = {"C13": check_C13, "C19": check_C19, "C03": check_C03, "C07": check_C07}
